@@ -67,8 +67,13 @@ CaseWithReturn == {M(<<InsLit("const/4", 0, 0, 0), [I(0) EXCEPT !.op = sw, !.a =
 DiffTested == {M(<<sb, Br("if-" \o tst \o "z", 0, 5), InsLit("const/4", 0, 0, 0), Ret(0), InsLit("const/4", 0, 0, 1), Ret(0)>>, 3, 1, <<"I", "I">>, "I") :
                  sb \in {Ins("sub-int", 0, 1, 2), Ins("sub-int", 0, 2, 1), InsLit("rsub-int/lit8", 0, 1, 100), InsLit("add-int/lit8", 0, 1, -100), InsLit("rsub-int", 0, 2, -1)},
                  tst \in {"lt", "ge", "gt", "le"}}
+\* a case that falls through into a case listed before it in the switch table (p0 = v1):
+\*   r = 1; switch (x) { case 1: r = x + 10; /* falls through */ case 0: r = r * 3; }  return r
+FallThrough == {M(<<InsLit("const/4", 0, 0, 1), [I(0) EXCEPT !.op = sw, !.a = 1, !.keys = <<Zero(4), One(4)>>, !.tgts = <<5, 4>>],
+                     [I(0) EXCEPT !.op = "goto", !.t = 6], InsLit("add-int/lit8", 0, 1, 10), InsLit("mul-int/lit8", 0, 0, 3), Ret(0)>>, 2, 1, <<"I">>, "I") :
+                  sw \in {"packed-switch", "sparse-switch"}}
 Methods ==
-  Aliased \cup Propagated \cup Widened \cup Hoisted \cup ParamCopy \cup ExitByTakenBranch \cup CaseWithReturn \cup DiffTested \cup
+  Aliased \cup Propagated \cup Widened \cup Hoisted \cup ParamCopy \cup ExitByTakenBranch \cup CaseWithReturn \cup DiffTested \cup FallThrough \cup
   {M(<<Ins(nm \o "-int", 0, 2, 3), Ret(0)>>, 4, 2, <<"I", "I">>, "I") : nm \in IntAlu}
   \cup {M(<<Ins(nm \o "-int/2addr", 2, 3, 0), Ret(2)>>, 4, 2, <<"I", "I">>, "I") : nm \in IntAlu}
   \cup {M(<<InsLit(nm \o "-int/lit16", 0, 1, lt), Ret(0)>>, 2, 1, <<"I">>, "I") : nm \in Lit16Alu, lt \in Lits16}
